@@ -3,6 +3,12 @@
 import json
 PROPS = [json.loads(l) for l in open('/verif/properties.jsonl')]
 CLAIMED = {
+ "C01": dict(
+    category="proof",
+    text="Coq theorems (C01_none_rejected, C01_data_is_numpy, C01_lockstep, C01_elementwise, C01_rank_shape) prove for every shape, every item (ints, open/negative/over-long slices, Ellipsis, None) and every inner WCS that the sliced WCS's per-axis offset and dropped flag equal numpy's start and dropped flag, so every surviving element reports the world coordinates of its source element; the transcription of NDCubeSlicingMixin.__getitem__ is tied to /repo by a correspondence check (probe linear WCS exact: shape, first element, WCS offsets, rank, array_shape) and an element-wise direct oracle over FITS families (TAN pair, split pair, rotated PC), numpy/dask payloads, mask/uncertainty/unit.",
+    design_ref="DESIGN.md §5.1",
+    note="Trusted: Coq kernel + VM; Model/M_Slicing.v transcription; dependency models of numpy indexing and SlicedLowLevelWCS offsets (np_axis_sel, wcs_axis_sel: validated against the implementation's observed offsets each run, not verified); floating-point evaluation of the inner WCS; gWCS family not in the generator yet.",
+    technique="Coq proof over hand-written Gallina model + vm_compute correspondence check against the implementation"),
  "C12": dict(
     category="proof",
     text="Coq theorems (C12_int, C12_slice, C12_step_refused, C12_new_common_axis) prove, for any number of cubes of any positive lengths and every int / slice item, that the pieces the index_as_cube algorithm prescribes concatenate to numpy's result on the concatenated axis; the Gallina transcription is tied to /repo on every run by an exhaustive small-domain correspondence check evaluated inside Coq (vm_compute) plus a direct numpy oracle.",
